@@ -3,7 +3,7 @@ import json
 import os
 import re
 
-from .kernel import (ExprBuilder, Loc, access_path, subexprs, variant_edges, is_local, AnchorMissing)
+from .kernel import (bool_call_switches, ExprBuilder, Loc, access_path, subexprs, variant_edges, is_local, AnchorMissing)
 from . import families as fam
 from . import life
 from . import sqe
@@ -539,6 +539,63 @@ def r7_socket_options(r, facts):
     r.floor(60, 'option constants')
 
 
+# sys::fs accessor -> statx(2) field it must decode
+STATX_FIELDS = {'filled': 'stx_mask', 'file_type': 'stx_mode', 'len': 'stx_size', 'block_size': 'stx_blksize', 'permissions': 'stx_mode',
+                'modified': 'stx_mtime', 'accessed': 'stx_atime', 'created': 'stx_btime'}
+
+
+def r9_metadata(r, facts):
+    """returned metadata: each accessor decodes the statx(2) field of its name; statx timestamps (signed seconds,
+    nanoseconds counting forward) are converted without losing the sign"""
+    n = 0
+    for name, field in sorted(STATX_FIELDS.items()):
+        pub = facts.fn_opt('fs::Metadata::%s' % name)
+        sysf = facts.fn_opt('io_uring::fs::%s' % name)
+        if not r.require(pub is not None and sysf is not None, 'metadata:%s' % name, 'Metadata::%s / its sys::fs decoder not found' % name):
+            continue
+        fw = [t for l, t in pub.calls() if (t.get('callee') or '') == 'io_uring::fs::%s' % name]
+        r.require(len(fw) == 1, 'metadata:%s' % name, 'Metadata::%s does not forward to the decoder of the same name' % name, pub.where())
+        eb = ExprBuilder(sysf, multi='phi')
+        fields = set()
+        for loc, s_ in sysf.assigns():
+            for x in subexprs(eb.rvalue(s_['rv'])):
+                lf = fam.last_field(x)
+                if lf and lf.startswith('stx_'):
+                    fields.add(lf)
+        for loc, t in sysf.calls():
+            for a in t['args']:
+                for x in subexprs(eb.operand(a)):
+                    lf = fam.last_field(x)
+                    if lf and lf.startswith('stx_'):
+                        fields.add(lf)
+        n += 1
+        r.inst('Metadata::%s <- statx.%s' % (name, sorted(fields)), sysf.where())
+        r.require(fields == {field}, 'metadata:%s' % name, 'Metadata::%s decodes statx field(s) %s, expected %s' % (name, sorted(fields), field), sysf.where())
+    f = facts.fn_opt('io_uring::fs::timestamp')
+    if r.require(f is not None, 'timestamp', 'statx timestamp conversion not found'):
+        eb = ExprBuilder(f, multi='phi')
+        # sign test
+        neg = [c for c in bool_call_switches(f, lambda t: (t.get('callee') or '').endswith('::is_negative'))]
+        for loc, s_ in f.assigns():
+            rv = s_['rv']
+            if rv['k'] == 'cast' and rv.get('ck') == 'IntToInt' and rv.get('from') == 'i64' and rv.get('to') == 'u64':
+                e = eb.rvalue(rv)
+                if not any(fam.last_field(x) == 'tv_sec' for x in subexprs(e)):
+                    continue
+                guarded = any(f.edge_dominates((c['bb'], c['false']), loc) for c in neg)
+                r.inst('tv_sec as u64 (guarded by a non-negative edge: %s)' % guarded, f.where(loc))
+                r.require(guarded, 'timestamp/sign-lost', 'tv_sec (signed) is cast to u64 without a dominating non-negative test: a time before 1970 becomes a huge duration and `UNIX_EPOCH - dur` panics (overflow) instead of returning the time stat(2) reports', f.where(loc))
+        # on the negative edge the nanoseconds count forward: they must not be part of the subtracted duration
+        for loc, t in f.calls():
+            if (t.get('callee') or '').startswith('<std::time::SystemTime as std::ops::Sub<std::time::Duration>>::sub'):
+                d = eb.operand(t['args'][1])
+                r.inst('UNIX_EPOCH - %s' % (str(d)[:80],), f.where(loc))
+                r.require(not any(fam.last_field(x) == 'tv_nsec' for x in subexprs(d)), 'timestamp/nsec-subtracted', 'for times before 1970 tv_nsec is subtracted together with the seconds; statx nanoseconds always count forward from tv_sec (-1.25 s is tv_sec=-2, tv_nsec=750000000)', f.where(loc))
+                r.require(any(c for c in neg if f.edge_dominates((c['bb'], c['true']), loc)), 'timestamp/sub-unguarded', 'a duration is subtracted from UNIX_EPOCH outside the negative-seconds edge', f.where(loc))
+        r.require(bool(neg), 'timestamp/no-sign-test', 'statx tv_sec is signed but the conversion has no sign test (times before 1970)', f.where())
+    r.floor(9)
+
+
 def check(ctx):
     ctx.run('C13.R1', 'end-to-end argument placement (public parameter -> SQE byte position) vs the io_uring ABI table', r1_flow_vs_abi)
     ctx.run('C13.R2', 'opcode / flag constants vs <linux/io_uring.h>', r2_constants)
@@ -548,5 +605,6 @@ def check(ctx):
     ctx.run('C13.R5', 'decoders take count / buffer id from this completion\'s OpReturn', r5_decoders)
     ctx.run('C13.R6', 'OpenOptions builders set exactly the open(2) flags of their name', r6_open_options)
     ctx.run('C13.R7', 'socket option types carry the level/option numbers of their socket(7)/tcp(7) counterpart', r7_socket_options)
+    ctx.run('C13.R9', 'returned metadata: accessor <-> statx field table; signed statx timestamps converted without losing the sign', r9_metadata)
     from . import c16
     ctx.run('C13.R8', 'addresses returned by accept/recv_from/local_addr/peer_addr are decoded field by field the way they are encoded (C16.R1: same fields, same byte order, constructor argument order)', c16.r1_field_agreement)
